@@ -402,6 +402,9 @@ def wrappers(ctx: Ctx) -> None:
 
 
 def shard(ctx: Ctx) -> None:
+    from vf.sim import device as _device
+
+    _device.AUTO_ROTATE = True   # chunking of the device's stream rotates: as written / replies coalesced / cut into 1..8-byte pieces
     rng = ctx.rng.__class__(f"C11/{ctx.seed}")
     n = 120000 if ctx.thorough else 16000
     for i in range(n):
